@@ -4,12 +4,12 @@
    - ARBITRARILY NESTED blocks of rules with plain action lists (no pass / break), any conditions: a nested block is
      entered only if its condition holds, the first rule that matches in depth-first order wins and exactly its
      actions are performed - equal to the documented semantics [spec_run] (C03_nested_first_match);
-   - FLAT blocks whose action lists may end with pass or break, conditions without negation: the actions other than
+   - FLAT blocks whose action lists may end with pass or break, any conditions: the actions other than
      move / flag performed are exactly those the documented semantics selects - first match wins, pass keeps the
      actions and continues, break abandons the block (C03_flat_pass_break).
    NOT proved: pass / break inside nested blocks (the statement [C03_first_match_statement] below; it needs the
-   exclusions recorded as refuted lemmas: a pass or action pending from another block decides a block, a failed
-   negation clears the list, location entries merge with the first pending one) - checked by the bounded-exhaustive
+   exclusions recorded as refuted lemmas: a pass or action pending from another block decides a block, location
+   entries merge with the first pending one) - checked by the bounded-exhaustive
    and random correspondence of harness/c03.py against [spec_run]. *)
 From Coq Require Import List Bool Arith.
 Import ListNotations.
@@ -90,13 +90,15 @@ Lemma C03_refuted_pending_pass :
 Proof. vm_compute. repeat split. Qed.
 Print Assumptions C03_refuted_pending_pass.
 
-(* T3 = F-02: a negated condition that fails clears actions kept by an earlier pass rule *)
-Lemma C03_refuted_neg_clears :
+(* F-02 (repaired in /repo): a negated condition that does not hold used to clear the WHOLE match list, losing the
+   actions kept by an earlier pass ("label pass" / "match ! <true> move": the label was lost).  The evaluator now
+   removes only the matches appended below the negation; the kept label is performed *)
+Lemma C03_neg_keeps_pending :
   let rules := [RActs CAll [XLabel 0; XPass]; RActs (CNeg (CAtom 0)) [XMove 0]] in
   let env := fun _ : nat => true in
-  run_rules rules env = None /\ spec_run rules env = Some [XLabel 0] /\ clean rules env = false.
+  run_rules rules env = Some [MAct (XLabel 0) (mkdest None None)] /\ spec_run rules env = Some [XLabel 0] /\ clean rules env = true.
 Proof. vm_compute. repeat split. Qed.
-Print Assumptions C03_refuted_neg_clears.
+Print Assumptions C03_neg_keeps_pending.
 
 (* F-21 (location merge): "move A pass / move B pass / flag !new" ends in A/cur although the
    evaluation is clean and the selected actions are move A, move B, flag !new: matches_merge copies the
